@@ -215,6 +215,9 @@ CHECKS = {
              "exponentiate (alias-safe wrapper) and Fq::square_root with out == a over uninterpreted field operations give the same term as with a distinct output and "
              "never hand the written object to a __restrict parameter; fp_inverse<Fq|Fr>(res == a) is hazard-free (no write through res reaches a read through a: "
              "datalog reachability over the CFG in z3's fixed-point engine). Violations are replayed natively.",
+        note="C wrappers forward pointers unchanged (C19). Whole-object aliasing only (partial overlap is outside the property). Recorded observation S12: FpBase::negate(out==a) "
+             "hands a.val to BigInt::subtract's __restrict parameter (results proved correct under sequential IR semantics in C02).",
+        tech="LLVM-IR symbolic execution under each aliasing configuration: polynomial-identity VCs mod q, bit-vector differential VCs, uninterpreted-term equality, datalog hazard reachability (z3); native replay",
         ref="5/C18"),
 }
 
